@@ -23,11 +23,14 @@ pub struct Bounds {
 }
 
 impl Bounds {
+    pub fn describe(&self) -> String {
+        format!("witness lists of length <= {} as single deviations and <= {} inside pairs", self.wits_single, self.wits_pair)
+    }
     pub fn tier(thorough: bool) -> Bounds {
         if thorough {
-            Bounds { wits_single: 3, wits_pair: 3, pairs: true }
+            Bounds { wits_single: 4, wits_pair: 3, pairs: true }
         } else {
-            Bounds { wits_single: 3, wits_pair: 1, pairs: true }
+            Bounds { wits_single: 3, wits_pair: 2, pairs: true }
         }
     }
 }
